@@ -43,16 +43,29 @@ func executeFlush(db *DB, flushAction memStoreFlushAction) error {
 
 	gen := atomic.AddUint64(&db.currentGeneration, uint64(1))
 	writePath := filepath.Join(db.basePath, fmt.Sprintf(SSTablePattern, gen))
-	err := os.MkdirAll(writePath, 0700)
+	// the table is written into a temporary directory and renamed into place once it is complete, so that a crash
+	// never leaves a partial table where recovery would try to load it. Leftovers are removed by the next Open.
+	flushPath := filepath.Join(db.basePath, SSTableFlushPathPrefix+"_"+filepath.Base(writePath))
+	err := os.RemoveAll(flushPath)
+	if err != nil {
+		return err
+	}
+
+	err = os.MkdirAll(flushPath, 0700)
 	if err != nil {
 		return err
 	}
 
 	err = memStoreToFlush.FlushWithTombstones(
-		sstables.WriteBasePath(writePath),
+		sstables.WriteBasePath(flushPath),
 		sstables.WithKeyComparator(db.cmp),
 		sstables.WriteBufferSizeBytes(int(db.writeBufferSizeBytes)),
 		sstables.BloomExpectedNumberOfElements(numElements))
+	if err != nil {
+		return err
+	}
+
+	err = os.Rename(flushPath, writePath)
 	if err != nil {
 		return err
 	}
